@@ -974,54 +974,160 @@ def oracle(ctx, scale):
     fingerprints(ctx)
 
 
+def dataK_cell(s, k, dcell=0.25):
+    """Data_K for one k-point WITH its parallelepiped (needed by the tetrahedron weights); the cell is centred at k, so
+       the cells of k and -k are mapped onto each other by k -> -k"""
+    from wannierberri.grid import Grid
+    from wannierberri.grid.Kpoint import KpointBZparallel
+    from wannierberri.data_K import Data_K_R
+    with quiet():
+        kp = KpointBZparallel(K=np.array(k, dtype=float), dK=np.ones(3) * dcell, NKFFT=np.ones(3, dtype=int), factor=1.,
+                              pointgroup=None)
+        return Data_K_R(s, grid=Grid(system=s, NK=1, NKFFT=1), dK=np.array(k, dtype=float), Kpoint=kp)
+
+
+def calculator_variants(calcs, thorough, rs):
+    """every option that changes how the RESULT object of a calculator is constructed:
+       static: k_resolved x tetra;  tabulators: default / ibands given;  dynamic (incl. SDCT terms): smearing type, kBT"""
+    out = []
+    ef = np.linspace(-0.5, 0.5, 5)
+    om = np.linspace(0.1, 1.0, 3)
+    for name, cls, c in calcs["static"]:
+        combos = [dict(tetra=t, k_resolved=kr) for t in (False, True) for kr in (False, True)]
+        for kw in combos:
+            out.append(("static", name, cls, dict(Efermi=ef, fder=0, **kw) if name == "_DOS" else dict(Efermi=ef, **kw), kw))
+    for name, cls, c in calcs["tab"]:
+        combos = [dict(), dict(ibands=[0, 1])]
+        if not thorough:
+            combos = [combos[int(rs.randint(2))]]
+        for kw in combos:
+            out.append(("tab", name, cls, dict(kw), kw))
+    for name, cls, c, ckw in calcs["dyn"]:
+        combos = [dict(), dict(smr_type="Gaussian"), dict(kBT=0.2)]
+        if not thorough:
+            combos = [combos[int(rs.randint(3))]]
+        for kw in combos:
+            full = dict(ckw)
+            full.update(kw)
+            out.append(("dyn", name, cls, full, kw))
+    return out
+
+
+def result_sites(ctx):
+    """construction sites of result objects in the calculators (ast of the live source): which formula attribute is
+       passed to which transform keyword"""
+    from wannierberri.calculators import static, dynamic, tabulate
+    sites = []
+    for mod, cname in ((static, "StaticCalculator"), (dynamic, "DynamicCalculator"), (tabulate, "Tabulator")):
+        cls = getattr(mod, cname)
+        try:
+            tree = ast.parse(textwrap.dedent(inspect.getsource(cls.__call__)))
+        except Exception as e:  # noqa
+            ctx.note(f"cannot read {cname}.__call__: {e}")
+            continue
+        for node in ast.walk(tree):
+            if isinstance(node, ast.Call) and getattr(node.func, "id", "") in ("K__Result", "EnergyResult", "KBandResult"):
+                kws = {k.arg: ast.unparse(k.value) for k in node.keywords if k.arg in ("transformTR", "transformInv")}
+                sites.append((cname, node.func.id, kws))
+                for kw, val in kws.items():
+                    if val not in (f"formula.{kw}", kw):
+                        ctx.mismatch(f"{cname}.__call__ constructs {node.func.id} with {kw}={val} (expected formula.{kw} "
+                                     f"or the calculator-level override `{kw}`)", dict(site=cname, result=node.func.id, keywords=kws))
+                if set(kws) != {"transformTR", "transformInv"}:
+                    ctx.mismatch(f"{cname}.__call__ constructs {node.func.id} without both transform keywords: {kws}",
+                                 dict(site=cname, result=node.func.id, keywords=kws))
+    ctx.count("result_sites", len(sites))
+    ctx.note("result construction sites: " + "; ".join(f"{c}->{r}({', '.join(f'{k}={v}' for k, v in sorted(kw.items()))})" for c, r, kw in sites))
+
+
 def calc_oracle(ctx, rs, calcs, scale):
-    """the same property one level up: the results of the calculators (which carry the declared transforms and
-       apply the calculator-level overrides and axis post-processing) at k and -k"""
-    items = [("static", n, c) for n, cls, c in calcs["static"]] + [("tab", n, c) for n, cls, c in calcs["tab"]] + \
-            [("dyn", n, c) for n, cls, c, kw in calcs["dyn"]]
-    nrep = ctx.n(1, 2) * (1 if scale == 1 else 2)
-    for rep in range(nrep):
-        for kind in ("TR", "I"):
+    """the same property one level up: the RESULTS of the calculators, for every option that changes how the result
+       object is built (k_resolved, tetra, ibands, smearing).  Two checks per (calculator, variant):
+       (i) the transforms declared by the result are those of the formula (or the calculator-level override);
+       (ii) result(-k) = result's own transform applied to result(k) in a TR- resp. inversion-symmetric model"""
+    thorough = ctx.tier == "thorough" or scale > 1
+    variants = calculator_variants(calcs, thorough, rs)
+    models = {}
+    unsupported = set()
+
+    def model(kind):
+        if kind not in models:
             mseed = int(rs.randint(0, 2 ** 31 - 1))
             r1 = np.random.RandomState(mseed)
             nw = int(r1.choice([3, 4]))
             with quiet():
                 s = build_model(r1, kind, nw)
             k = good_k(r1, s)
-            for grp, name, c in items:
-                if ctx.tier == "quick" and scale == 1 and rs.rand() < 0.5 and grp != "dyn":
-                    continue
-                case = dict(calculator=f"{grp}.{name}", model=kind, model_seed=mseed, nw_choices=[3, 4], num_wann=nw, k=k.tolist())
-                if hasattr(c, "kwargs_formula") and name in ("Morb_test", "GME_orb_FermiSea_test", "BerryDipole_FermiSea_test", "AHC_test"):
-                    pass   # these run with the CCab / FF matrices that the model provides
+            # one Data_K per k-point shared by all calculators, as in a real run
+            models[kind] = (s, k, mseed, nw, dataK_cell(s, k), dataK_cell(s, -k))
+        return models[kind]
+
+    for rep in range(1 if scale == 1 else 2):
+        models.clear()
+        for grp, name, cls, ckw, var in variants:
+            kinds = ("TR", "I") if thorough else (("TR", "I")[int(rs.randint(2))],)
+            try:
+                with quiet():
+                    c = cls(**ckw)
+            except Exception as e:  # noqa
+                ctx.note(f"calculator {grp}.{name}({var}) cannot be constructed: {type(e).__name__}: {str(e)[:100]}")
+                continue
+            for kind in kinds:
+                s, k, mseed, nw, dk1, dk2 = model(kind)
+                case = dict(calculator=f"{grp}.{name}", options=var, model=kind, model_seed=mseed, nw_choices=[3, 4],
+                            num_wann=nw, k=k.tolist())
                 try:
                     with quiet():
-                        r1 = c(dataK(s, k))
-                        r2 = c(dataK(s, -k))
+                        r1, r2 = c(dk1), c(dk2)
                 except NotImplementedError:
                     continue
                 except Exception as e:  # noqa
-                    ctx.fail(f"calculator {grp}.{name} raised in a {kind}-symmetric model: {type(e).__name__}: {str(e)[:200]}", case)
+                    from wannierberri.calculators import static as _st
+                    if grp == "static" and var.get("k_resolved") and type(c).__call__ is not _st.StaticCalculator.__call__:
+                        # calculators that post-process `res.data` in their own __call__ do not support k_resolved=True
+                        # (K__Result.data has no setter / different axis count): outside C08, reported as a note
+                        unsupported.add(name)
+                        continue
+                    ctx.fail(f"calculator {grp}.{name}({var}) raised in a {kind}-symmetric model: {type(e).__name__}: {str(e)[:200]}", case)
                     continue
                 if not hasattr(r1, "data"):
                     continue
+                # (i) declared transforms of the result = those of the formula / the calculator override
+                try:
+                    with quiet():
+                        f = c.Formula(dk1, **getattr(c, "kwargs_formula", {}))
+                    for attr in ("transformTR", "transformInv"):
+                        want = getattr(c, attr) if (grp == "dyn" and hasattr(c, attr)) else getattr(f, attr, None)
+                        got = getattr(r1, attr, None)
+                        if tdecl(want) != tdecl(got):
+                            kf = None
+                            ctx.fail(f"calculator {grp}.{name}({var}): the {type(r1).__name__} declares {attr} = {tdecl(got)} "
+                                     f"but the formula {type(f).__name__} declares {tdecl(want)}", dict(case, attribute=attr), kf=kf)
+                    ctx.count(f"oracle.calc.declared.{grp}")
+                except Exception as e:  # noqa
+                    ctx.note(f"cannot compare the declarations of {grp}.{name}: {type(e).__name__}: {str(e)[:80]}")
+                # (ii) numeric parity through the result's own transform
                 T = getattr(r1, "transformTR" if kind == "TR" else "transformInv", None)
                 if T is None:
                     continue
                 d1, d2 = np.array(r1.data), np.array(r2.data)
                 if d1.shape != d2.shape:
-                    ctx.fail(f"calculator {grp}.{name}: shapes differ at k and -k", case)
+                    ctx.fail(f"calculator {grp}.{name}({var}): shapes differ at k and -k", case)
                     continue
                 w = T(np.array(d1, dtype=complex).copy())
                 scale_v = max(1e-300, np.abs(d1).max(), np.abs(d2).max())
                 dev = float(np.abs(w - d2).max() / scale_v) if scale_v > 1e-250 else 0.0
-                ctx.case(signature=("calc", grp, name, kind, nw, tuple(k)), nontrivial=scale_v > 1e-12)
-                ctx.count(f"oracle.calc.{grp}.{kind}")
-                if dev > 1e-8:
+                ctx.case(signature=("calc", grp, name, repr(sorted(var.items())), kind, mseed), nontrivial=scale_v > 1e-12)
+                ctx.count(f"oracle.calc.{grp}.{kind}" + ("".join(f".{k_}" for k_, v_ in sorted(var.items()) if v_ is True)))
+                if dev > 1e-7:
                     kf = KF_SDCT if (name == "SDCT_asym_surf_II" and kind == "TR") else None
-                    ctx.fail(f"calculator {grp}.{name}: result at -k differs from the declared "
+                    ctx.fail(f"calculator {grp}.{name}({var}): result at -k differs from the result's declared "
                              f"{'transformTR' if kind == 'TR' else 'transformInv'} ({T}) of the result at k in a "
                              f"{kind}-symmetric model: relative deviation {dev:.3e}", dict(case, max_abs=scale_v), kf=kf)
+    if unsupported:
+        ctx.note("k_resolved=True raises for calculators that post-process res.data in their own __call__ (outside C08): "
+                 + ", ".join(sorted(unsupported)))
+    result_sites(ctx)
 
 
 # ---------------------------------------------------------------------------------------------
